@@ -67,6 +67,17 @@ void all() {
   (void)inl.size();
   LC_Morph_Graph<int, int> lm;
   build(lm);
+
+  // file edge type different from the in-memory edge type (with_file_edge_data): every layout must read the file as the
+  // FILE's type and convert
+  LC_CSR_Graph<int, double>::with_file_edge_data<uint32_t>::type fcsr;
+  build(fcsr);
+  LC_Linear_Graph<int, double>::with_file_edge_data<uint32_t>::type flin;
+  build(flin);
+  LC_Morph_Graph<int, double>::with_file_edge_data<uint32_t>::type flm;
+  build(flm);
+  LC_CSR_CSC_Graph<int, double>::with_file_edge_data<uint32_t>::type fcc;
+  build(fcc);
 }
 
 } // namespace gsa_driver
